@@ -583,6 +583,19 @@ pub fn analyse(d: &Deps, req: &Request) -> Analysis {
     a
 }
 
+/// True when the request has the shape that triggers the known scheduling
+/// defect: some needed operator depends on a value that is available from the
+/// start (supplied / constant / graph capture) *and* is produced by a needed
+/// operator. Without this shape, nothing that a scheduled operator waited for
+/// can be produced a second time.
+pub fn initially_available_value_reproduced(d: &Deps, a: &Analysis) -> bool {
+    let mut produced_by_needed = 0u128;
+    for k in bits(a.needed) {
+        produced_by_needed |= d.outs[k];
+    }
+    bits(a.needed).any(|k| d.deps[k] & a.r0 & produced_by_needed != 0)
+}
+
 /// Classes of error the planner may report (by message; `RunErrorKind` only says
 /// `PlanningError`).
 #[derive(Debug, PartialEq, Eq, Clone, Copy)]
@@ -663,8 +676,13 @@ pub fn judge(spec: &GraphSpec, d: &Deps, b: &Built, req: &Request, detail: bool)
     let result = match result {
         Ok(r) => r,
         Err(p) if p.msg.contains(BUDGET_MSG) => {
+            let sig = if initially_available_value_reproduced(d, &a) {
+                "plan:non-termination@supplied-value-reproduced"
+            } else {
+                "plan:non-termination"
+            };
             return viol!(
-                "plan:non-termination",
+                sig,
                 "planning did not finish within the step budget ({budget} frontier look-ups for {} operators): the scheduling loop keeps re-adding operators",
                 spec.ops.len()
             );
@@ -777,7 +795,12 @@ pub fn judge(spec: &GraphSpec, d: &Deps, b: &Built, req: &Request, detail: bool)
                 }
             }
             if let Some(k) = twice {
-                return viol!("plan:op-twice", "operator op{k} appears more than once in plan {:?}", names());
+                let sig = if initially_available_value_reproduced(d, &a) {
+                    "plan:op-twice@supplied-value-reproduced"
+                } else {
+                    "plan:op-twice"
+                };
+                return viol!(sig, "operator op{k} appears more than once in plan {:?}", names());
             }
             // cross-check of the harness itself: valid + complete + minimal
             // implies the plan is exactly the needed set
@@ -822,7 +845,7 @@ pub fn describe(spec: &GraphSpec) -> String {
 /// not hide a different violation of the same case.
 pub fn sig_priority(sig: &str) -> u32 {
     match sig {
-        "plan:op-twice" | "plan:non-termination" => 9,
+        "plan:op-twice@supplied-value-reproduced" | "plan:non-termination@supplied-value-reproduced" => 9,
         _ => 0,
     }
 }
